@@ -51,6 +51,8 @@ def run_many(chk, focus, nruns, wlat=0.02, extra_programs=()):
         else:
             prog, nv = gen_for_exec(rng)
         exname, kw = settings(rng, k)
+        if prog.get("family") and exname != "single-threaded" and rng.random() < 0.8:
+            kw["compute_arrays_in_parallel"] = True      # hand-shaped DAGs are about generations: run them in parallel mostly
         optimize = rng.random() < 0.6
         with traced.Session(wlat=wlat, wlat_random=True) as s:
             spec = s.spec()
